@@ -938,7 +938,10 @@ class CallMixin:
                 return None
         if not found:
             return None
-        return list(found.values())[:4]
+        ok = [t for t in found.values() if 'ite' not in t.sexpr()]
+        if not ok:
+            return None
+        return ok[:4]
 
     def _qid(self):
         self._qn = getattr(self, '_qn', 0) + 1
